@@ -122,6 +122,37 @@ def solve_cases():
             bad.append(dict(problem="KeyboardInterrupt escaped from tdgl.solve (pause_on_interrupt=False)"))
         except Exception as e:  # noqa
             bad.append(dict(problem=f"cancelled real solve: {type(e).__name__}: {str(e)[:120]}"))
+        # no output file requested (output_file=None): the scratch directory of every run is removed when the run ends, also when ONE options object
+        # serves several runs and a later run is stopped by an error; the caller's options are not rewritten by a run
+        import dataclasses as _dc
+        scratch_root = os.path.join(td, "tmproot")
+        os.makedirs(scratch_root)
+        old_tmp = tempfile.tempdir
+        tempfile.tempdir = scratch_root
+        try:
+            o_none = tdgl.SolverOptions(solve_time=0.1, output_file=None, save_every=5, adaptive=False, dt_init=1e-2, pause_on_interrupt=False)
+            given = {f_.name: getattr(o_none, f_.name) for f_ in _dc.fields(o_none)}
+            tdgl.solve(dev, o_none, applied_vector_potential=0.1)
+            now = {f_.name: getattr(o_none, f_.name) for f_ in _dc.fields(o_none)}
+            n += 1
+            diff = sorted(k_ for k_ in given if k_ != "sparse_solver" and given[k_] != now[k_])
+            if diff:
+                bad.append(dict(problem=f"a run rewrote the caller's options: {diff}", output_file_before=str(given.get("output_file")), output_file_after=str(now.get("output_file"))))
+
+            def eps2(r, *, t):
+                if t > 0.045:
+                    raise RuntimeError("injected")
+                return 1.0
+            try:
+                tdgl.solve(dev, o_none, applied_vector_potential=0.1, disorder_epsilon=eps2)
+            except RuntimeError:
+                pass
+            n += 1
+            left = sorted(os.path.join(dp_, f_)[len(scratch_root) + 1:] for dp_, _, fs_ in os.walk(scratch_root) for f_ in fs_)
+            if left:
+                bad.append(dict(problem=f"no output file was requested, yet files remain in the temporary area after a completed and a stopped run with one options object: {left[:4]}"))
+        finally:
+            tempfile.tempdir = old_tmp
     finally:
         import shutil
         shutil.rmtree(td, ignore_errors=True)
